@@ -107,17 +107,14 @@ Definition str_valid (str : list N) (pos : nat) (n : N) (zero one : N) : bool :=
 Definition op_dom (o : op) : bool :=
   match o with OStr str pos n zero one => str_valid str pos n zero one | _ => true end.
 
-Record sobs := { so_string : list N; so_count : nat; so_all : bool; so_any : bool; so_none : bool;
-                 so_ullong : option N; so_eq : bool }.
-
-Definition s_observe (nb : nat) (st : sstate) : sobs :=
+Definition s_observe (nb : nat) (st : sstate) : obs :=
   let '(cur, oth) := st in
-  {| so_string := s_to_string cur 48%N 49%N; so_count := s_count cur; so_all := s_all cur;
-     so_any := s_any cur; so_none := s_none cur;
-     so_ullong := if nb <=? 64 then Some (s_value cur) else None;
-     so_eq := s_eq cur oth |}.
+  {| o_string := s_to_string cur 48%N 49%N; o_count := s_count cur; o_all := s_all cur;
+     o_any := s_any cur; o_none := s_none cur;
+     o_ullong := if nb <=? 64 then Some (s_value cur) else None;
+     o_eq := s_eq cur oth |}.
 
-Fixpoint s_run (nb : nat) (st : sstate) (ops : list op) : list (option (sobs * list bool)) :=
+Fixpoint s_run (nb : nat) (st : sstate) (ops : list op) : list (option (obs * list bool)) :=
   match ops with
   | [] => []
   | o :: rest =>
